@@ -163,7 +163,7 @@ macro_rules! storage_table {
 /// table.
 pub fn make_net(frames: u64, data: u64) -> Option<Net> {
     storage_table!(frames, data; [1, 2, 4, 8, 16];
-        [30, 31, 32, 33, 34, 36, 40, 44, 48, 50, 52, 56, 60, 64, 96, 128, 256, 512, 1100, 1514])
+        [16, 17, 18, 20, 22, 24, 26, 28, 30, 31, 32, 33, 34, 36, 40, 44, 48, 50, 52, 56, 60, 64, 96, 128, 256, 512, 1100, 1514])
 }
 
 /// Fresh clock, fresh storage, fresh MainDevice around `seg`. `None`: storage shape not supported.
